@@ -16,6 +16,7 @@ import (
 	"time"
 
 	"github.com/elnosh/gonuts/cashu"
+	"github.com/elnosh/gonuts/cashu/nuts/nut02"
 	"github.com/elnosh/gonuts/cashu/nuts/nut04"
 	"github.com/elnosh/gonuts/cashu/nuts/nut05"
 
@@ -646,6 +647,21 @@ var ops = []opSpec{
 			if delivered && r.err == nil && len(list) != strings.Count(e.keysetsBefore, ",")+2 {
 				rep("acknowledged_rotation_lost", "%v", list)
 			}
+			// the keyset the client was told about is the one the restarted mint has: same id, active, same fee
+			if k, ok := r.resp.(*nut02.Keyset); ok && delivered && r.err == nil && k != nil {
+				found := false
+				for _, l := range list {
+					if l.Id == k.Id {
+						found = true
+						if !l.Active || l.InputFeePpk != k.InputFeePpk || k.InputFeePpk != 250 {
+							rep("acknowledged_rotation_differs_after_restart", "answered %+v, after restart %+v", *k, l)
+						}
+					}
+				}
+				if !found {
+					rep("acknowledged_rotation_lost", "keyset %s not listed: %v", k.Id, list)
+				}
+			}
 			if err := trySwap(e, e.inputs); err != nil {
 				rep("old_keyset_proofs_unusable_after_rotation_fault", "%v", err)
 			}
@@ -779,6 +795,15 @@ func execute(t *testing.T, op opSpec, v variant, kind faultKind, k int) (fs []fi
 		_, sigs, err := w.Mint.RestoreSignatures(msgs)
 		if err != nil || len(sigs) != len(msgs) {
 			rep("durability:earlier_signatures_not_restorable", "%d of %d, err %v", len(sigs), len(msgs), err)
+		}
+		// the way a wallet restores after a crash: one request over consecutive counters, in which outputs the mint never
+		// signed (lost requests) sit in front of and between the signed ones
+		holes := world.Msgs(w.MakeOutputs([]uint64{1, 2}, w.ActiveID))
+		mixed := append(cashu.BlindedMessages{holes[0]}, msgs[:len(msgs)/2]...)
+		mixed = append(append(mixed, holes[1]), msgs[len(msgs)/2:]...)
+		outs2, sigs2, err := w.Mint.RestoreSignatures(mixed)
+		if err != nil || len(sigs2) != len(msgs) || len(outs2) != len(msgs) {
+			rep("durability:earlier_signatures_not_restorable_behind_unsigned_outputs", "%d of %d signatures in a request with never-signed outputs in front and in between, err %v", len(sigs2), len(msgs), err)
 		}
 	}
 	if len(e.preSpent) > 0 {
